@@ -17,6 +17,10 @@ direct:  `ins h k v` `del h k` `delmin h` `delmax h` `get h k` `min h` `max h`  
 wrapper: `wins k v` → ok   `wupd old k v` `wups old k v` `wdel k` → true|false   `wget k` → item | nil
          `wscan <gte|gt|lte|lt> p <filter> n` filter ∈ all none mod3 odd lt:K gt:K → list | panic
          `wlen` → n   `wchk` → ok | bad   `wconc lo hi` → ok   (concurrent inserts of lo..hi, val 0, with readers)
+         `wrace <pos> <A> / <B>`  A, B ∈ `upd old k v` `ups old k v` `del k` `ins k v` `get k`: call A is parked inside
+             its `pos`-th key comparison, B is started, A is released. Every method of the wrapper is one critical
+             section, so the results and the contents must be those of A;B or of B;A:
+             → `{a=<r> b=<r> items=[…]|a=<r> b=<r> items=[…]}` (the state continues as after A;B — a parked A holds the lock)
 The configuration is the one regenerated from the source (`Nv.Gen.C03.cfg`).
 -/
 open Nv Nv.C03
@@ -106,6 +110,31 @@ def withW (s : St) (f : Tree → St × String) : St × String :=
   match s.trees with
   | [t] => f t
   | _ => (s, "bad-op")
+
+/-- one call of the wrapper, as a script token list -/
+inductive WrOp
+  | upd (old : Int) (x : Item) | ups (old : Int) (x : Item) | del (k : Int) | ins (x : Item) | get (k : Int)
+
+def pWrOp : List String → Option WrOp
+  | ["upd", old, k, v] => match pInt old, pInt k, pNat v with
+    | some old, some k, some v => some (.upd old ⟨k, v⟩)
+    | _, _, _ => none
+  | ["ups", old, k, v] => match pInt old, pInt k, pNat v with
+    | some old, some k, some v => some (.ups old ⟨k, v⟩)
+    | _, _, _ => none
+  | ["del", k] => (pInt k).map .del
+  | ["ins", k, v] => match pInt k, pNat v with
+    | some k, some v => some (.ins ⟨k, v⟩)
+    | _, _ => none
+  | ["get", k] => (pInt k).map .get
+  | _ => none
+
+def applyWr (t : Tree) : WrOp → Tree × String
+  | .upd old x => let r := wUpdate t old x; (r.1, showBool r.2)
+  | .ups old x => let r := wUpdateOrInsert t old x; (r.1, showBool r.2)
+  | .del k => let r := wDelete t k; (r.1, showBool r.2)
+  | .ins x => (wInsert t x, "ok")
+  | .get k => (t, showOpt (wGet t k))
 
 def showWalk : WalkOut → String
   | .items l => showItems l
@@ -215,6 +244,21 @@ def step (s : St) (line : String) : St × String :=
         -- concurrent inserts of distinct keys commute: any order yields the same set
         let keys := (List.range ((hi - lo).toNat + 1)).map (fun (i : Nat) => lo + Int.ofNat i)
         ({ s with trees := [keys.foldl (fun t k => wInsert t ⟨k, 0⟩) t] }, "ok")
+    | _, _ => (s, "bad-op")
+  | "wrace" :: pos :: rest => withW s fun t =>
+    match pNat pos, rest.span (· != "/") with
+    | some pos, (ta, "/" :: tb) =>
+      match pWrOp ta, pWrOp tb with
+      | some a, some b =>
+        if pos < 1 || pos > 50 then (s, "bad-op") else
+        let ab1 := applyWr t a
+        let ab2 := applyWr ab1.1 b
+        let ba1 := applyWr t b
+        let ba2 := applyWr ba1.1 a
+        let o1 := s!"a={ab1.2} b={ab2.2} items={showItems ab2.1.inorder}"
+        let o2 := s!"a={ba2.2} b={ba1.2} items={showItems ba2.1.inorder}"
+        ({ s with trees := [ab2.1] }, "{" ++ o1 ++ "|" ++ o2 ++ "}")
+      | _, _ => (s, "bad-op")
     | _, _ => (s, "bad-op")
   | ["wlen"] => withW s fun t => (s, toString t.length)
   | ["wchk"] => withW s fun t => (s, if t.ok then "ok" else "bad")
